@@ -278,9 +278,6 @@ theorem C01_breaks_refDeletionResign :
       | .ok db' => decide (db' = db0) | .error _ => false) = true := by
   decide
 
-/-- the reference 1 → 0 stored at row 1 (of member 2) was added by member 3 -/
-def db2 : Db := { db0 with edges := [⟨1, 0, 0, 3, 3⟩] }
-
 /-- **C01_breaks_refRightOnEdgeAuthor (#3, second half — still in /repo).** Member 3 holds the own-rows right only.
     It deletes the reference it once added at the foreign row 1: the right is judged on the reference's author
     (own reference: own-rows right suffices) and row 1, which belongs to member 2, is re-dated and re-signed by
